@@ -29,4 +29,20 @@ func init() {
 			return chunk("main", "prod", n, pick(tier, 500, 12500), Job{Timeout: 30 * time.Minute})
 		},
 	})
+	register(&Plan{
+		Prop:  "C06",
+		Level: "exploration",
+		Rule: "cases = generated colored records via WriteThru (fixed instant and frame): 15 severities (built-in, registered fg / fg+bg / no colour, unregistered), tag width 1-5, minimal width 16-80, " +
+			"single/multi-line messages with/without trailing newline (70% in the layout domain, 30% with markup or other controls), 0-24 attributes of every kind incl. errors and groups; both process modes. " +
+			"Oracles: SGR terminal-state simulator (default state at every LF and at the end), escape/control skeleton compared with the same record logged with neutralised values, layout parser over the stripped text. " +
+			"non-trivial = all clauses passed on a decoded record; distinct = by payload bytes",
+		Assumptions: []string{"ShortTag and Source.Extract of the library are used to build the expected tag and caller text (their own correctness is C17 / C14 / C18)", "under go test, error texts are generated without control bytes (the multi-line dump prints the error text verbatim by design)"},
+		Floors:      map[string]int64{"records_decoded": 100, "layout_checked": 50, "sgr_sequences_simulated": 1000},
+		Jobs: func(tier string, seed int64) []Job {
+			n := pick(tier, 4000, 300000)
+			js := chunk("main", "prod", n, pick(tier, 500, 12500), Job{Timeout: 30 * time.Minute})
+			js = append(js, chunk("main", "test", n/2, pick(tier, 500, 12500), Job{Timeout: 30 * time.Minute})...)
+			return js
+		},
+	})
 }
